@@ -186,6 +186,25 @@ def main():
                 content = leb(1) + leb(len(table)) + table + b'\x00'
                 frame = bytes([0]) + leb(61 << 20) + content
                 cases.append(dict(id=f'{c["id"]}:sizetable:{S >> 20}', root=c['root'], stream=(stream[:hdr_end] + frame).hex(), kind='crafted-size-table', compr=0))
+        # crafted zstd frames: the declared UNCOMPRESSED size of the frame is far above the frame size limit while the
+        # compressed bytes are few, and inside the compressed content the size of the column size table / of a column
+        # is inflated too (the zstd content is a hand-made zstd frame with one raw block; restart flags all set)
+        for c, o in zip(seeds, outs):
+            if c['opts']['compression'] != 1:
+                continue
+            stream = bytes.fromhex(o['stream'])
+            hdr_end = o['chunks'][0] + o['chunks'][1]
+            def zraw(content):
+                assert len(content) < 1 << 16
+                bh = (len(content) << 3) | 1                 # last block, raw
+                return bytes([0x28, 0xb5, 0x2f, 0xfd, 0x00, 0x58]) + bytes([bh & 255, (bh >> 8) & 255, (bh >> 16) & 255]) + content
+            for nm, content, usize in (('table-1GiB', leb(1) + leb(1 << 30), 1 << 40), ('table-100MiB', leb(1) + leb(100 << 20), 200 << 20),
+                                       ('column-1GiB', leb(1) + leb(5) + bytes([0xff, 0xff, 0xff, 0xff, 0xff]), 3 << 30),
+                                       ('declared-65MiB', leb(1) + leb(1) + b'\x80', 65 << 20)):
+                z = zraw(content)
+                frame = bytes([7]) + leb(usize) + leb(len(z)) + z
+                cases.append(dict(id=f'{c["id"]}:zstd-inflated:{nm}', root=c['root'], stream=(stream[:hdr_end] + frame).hex(), kind='crafted-zstd-sizes', compr=1))
+            break
         for c, o in zip(sem, outs[len(seeds):]):
             cases.append(dict(id=c['id'], root='Metrics', stream=o['stream'], kind='semantic', compr=0, semantic=c['semantic']))
         # deep nesting: a recursive value (AnyValue -> array -> AnyValue ...) grown by 120000 levels with
